@@ -63,19 +63,23 @@ def sv_source(rng, nvals):
     A = [gen_value(rng) for _ in range(nvals)]
     B = [gen_value(rng) for _ in range(nvals)]
     src = ['inherit "/svlib";']
-    for i in range(nvals): src.append('mixed g%d;' % i)
+    # now and then one variable has a very long (legal) name: save_object() writes it, restore_object() has to find it again
+    G = ['g%d' % i for i in range(nvals)]
+    if rng.random() < 0.2:
+        j = rng.randrange(nvals); G[j] = 'g%d_%s' % (j, 'n' * rng.choice((90, 96, 97, 98, 120, 200)))
+    for i in range(nvals): src.append('mixed %s;' % G[i])
     src.append('static mixed st1;')
     src.append('object gob;')
     src.append('mixed shared;')
     for i, e in enumerate(A): src.append('mixed v%d() {\n return %s;\n}' % (i, e.replace(', ', ',\n  ')))
     for i, e in enumerate(B): src.append('mixed w%d() {\n return %s;\n}' % (i, e.replace(', ', ',\n  ')))
-    src.append('void setg(string which) {\n mixed *sh;\n ' + '\n '.join('g%d = call_other(this_object(), which + "%d");' % (i, i) for i in range(nvals)) +
+    src.append('void setg(string which) {\n mixed *sh;\n ' + '\n '.join('%s = call_other(this_object(), which + "%d");' % (G[i], i) for i in range(nvals)) +
                '\n st1 = 777; gob = this_object(); sh = ({ 1, "x" }); shared = ({ sh, sh, ([ "k" : sh ]) });\n}')
     src.append('void save(string which, string f) { int r; mixed e; setg(which); e = catch(r = save_object(f)); rec("SAVE " + which + " ret=" + r + " err=" + (e ? replace_string(e, "\\n", "") : "0")); }')
     src.append('void dump(string f) { string t; t = read_file(f); rec("FILE " + f + " " + (t ? hexs(t) : "-")); }')
-    src.append('void rest(string f) {\n int r; mixed e; string d;\n ' + '\n '.join('g%d = 0;' % i for i in range(nvals)) + '\n st1 = 0; gob = 0; shared = 0;\n'
+    src.append('void rest(string f) {\n int r; mixed e; string d;\n ' + '\n '.join('%s = 0;' % G[i] for i in range(nvals)) + '\n st1 = 0; gob = 0; shared = 0;\n'
                ' e = catch(r = restore_object(f));\n rec("REST ret=" + r + " err=" + (e ? replace_string(e, "\\n", "") : "0"));\n'
-               + '\n'.join(' d = eqv(strip_obs(v%d()), g%d, "g%d");\n rec("RTG v %d " + (d ? "NE " + d : "eq"));\n d = eqv(strip_obs(w%d()), g%d, "g%d");\n rec("RTG w %d " + (d ? "NE " + d : "eq"));' % ((i,) * 8) for i in range(nvals))
+               + '\n'.join(' d = eqv(strip_obs(v%d()), %s, "g%d");\n rec("RTG v %d " + (d ? "NE " + d : "eq"));\n d = eqv(strip_obs(w%d()), %s, "g%d");\n rec("RTG w %d " + (d ? "NE " + d : "eq"));' % (i, G[i], i, i, i, G[i], i, i) for i in range(nvals))
                + '\n rec("RTS static=" + st1 + " ob=" + (gob ? 1 : 0) + " shared=" +\n  (eqv(({ ({ 1, "x" }), ({ 1, "x" }), ([ "k" : ({ 1, "x" }) ]) }), shared, "sh") ? "NE" : "eq"));\n}')
     src.append('void restd(string f) { int r; mixed e; e = catch(r = restore_object(f)); rec("RESTD ret=" + r + " err=" + (e ? "1" : "0")); }')
     return '\n'.join(src) + '\n'
